@@ -147,8 +147,8 @@ def _assign_utility(
         H_segment = H_vals[: pinch_row + 1]
         segment_limit = H_segment[0]
     else:
-        T_segment = T_vals[pinch_row - 1:]
-        H_segment = H_vals[pinch_row - 1:]
+        T_segment = T_vals[max(pinch_row - 1, 0):]
+        H_segment = H_vals[max(pinch_row - 1, 0):]
         segment_limit = H_segment[-1]
 
     Q_assigned = 0.0
